@@ -59,6 +59,21 @@ pub enum Op {
     USplitLo(u16),
     UClearHigh(u16),
     USqr,
+    // second generation
+    DivRemAssign(u8, u8), // r = x.div_rem_assign(&y); drop r
+    GcdAssign(u8, u8),    // x = gcd(x, y)
+    Swap,                 // mem::swap(a, b)
+    MulPrim(u8),          // x *= 1000003u32
+    AddPrim(u8),          // x += u64::MAX
+    SubPrimI(u8),         // x -= i128::MIN + 1
+    FromU128(u8),         // x = IBig::from(constant u128)
+    StrRoundTrip(u8),     // x = parse(format(x)) in radix 16
+    USqrt,                // u = sqrt(u)
+    UPow3,                // u = u^3
+    UDivPrim,             // u /= 7u8
+    URemPrim,             // u %= (2^64 - 59) as u64 value
+    UPaddedWords,         // u = from_words(words ++ [0, 0])
+    UChunks,              // u = from_chunks(to_chunks(u, 100), 100)
 }
 
 #[derive(Clone, Debug)]
@@ -162,6 +177,23 @@ pub fn alphabet(full: bool) -> Vec<Op> {
         }
     }
     v.push(Op::USqr);
+    for d in 0..2u8 {
+        let s = 1 - d;
+        v.push(Op::DivRemAssign(d, s));
+        v.push(Op::GcdAssign(d, s));
+        v.push(Op::MulPrim(d));
+        v.push(Op::AddPrim(d));
+        v.push(Op::SubPrimI(d));
+        v.push(Op::FromU128(d));
+        v.push(Op::StrRoundTrip(d));
+    }
+    v.push(Op::Swap);
+    v.push(Op::USqrt);
+    v.push(Op::UPow3);
+    v.push(Op::UDivPrim);
+    v.push(Op::URemPrim);
+    v.push(Op::UPaddedWords);
+    v.push(Op::UChunks);
     v
 }
 
@@ -296,8 +328,59 @@ pub fn apply_ref(m: &mut Mirror, op: Op, max_words: usize) -> Result<(), Skip> {
             lim(&r)?;
             m.u = r;
         }
+        Op::DivRemAssign(d, s) => {
+            if m.i[s as usize].is_zero() {
+                return Err(Skip::Precondition);
+            }
+            m.i[d as usize] = &m.i[d as usize] / &m.i[s as usize];
+        }
+        Op::GcdAssign(d, s) => {
+            if m.i[d as usize].is_zero() && m.i[s as usize].is_zero() {
+                return Err(Skip::Precondition);
+            }
+            m.i[d as usize] = BigInt::from(gcd_ref(m.i[d as usize].magnitude(), m.i[s as usize].magnitude()));
+        }
+        Op::Swap => m.i.swap(0, 1),
+        Op::MulPrim(d) => {
+            let r = &m.i[d as usize] * 1000003u32;
+            lim(r.magnitude())?;
+            m.i[d as usize] = r;
+        }
+        Op::AddPrim(d) => {
+            let r = &m.i[d as usize] + BigInt::from(u64::MAX);
+            lim(r.magnitude())?;
+            m.i[d as usize] = r;
+        }
+        Op::SubPrimI(d) => {
+            let r = &m.i[d as usize] - BigInt::from(i128::MIN + 1);
+            lim(r.magnitude())?;
+            m.i[d as usize] = r;
+        }
+        Op::FromU128(d) => m.i[d as usize] = BigInt::from(U128_CONST),
+        Op::StrRoundTrip(_) | Op::UPaddedWords | Op::UChunks => {}
+        Op::USqrt => m.u = m.u.sqrt(),
+        Op::UPow3 => {
+            let r = &m.u * &m.u * &m.u;
+            lim(&r)?;
+            m.u = r;
+        }
+        Op::UDivPrim => m.u = &m.u / 7u32,
+        Op::URemPrim => m.u = &m.u % BigUint::from(U64_MOD),
     }
     Ok(())
+}
+
+const U128_CONST: u128 = 0x8000_0000_0000_0001_FFFF_FFFF_0000_0000;
+const U64_MOD: u64 = u64::MAX - 58;
+
+fn gcd_ref(a: &BigUint, b: &BigUint) -> BigUint {
+    let (mut a, mut b) = (a.clone(), b.clone());
+    while !b.is_zero() {
+        let r = &a % &b;
+        a = b;
+        b = r;
+    }
+    a
 }
 
 macro_rules! bin_assign {
@@ -405,6 +488,40 @@ pub fn apply_real(p: &mut Pool, op: Op) {
         }
         Op::UClearHigh(n) => p.u.clear_high_bits(n as usize),
         Op::USqr => p.u = p.u.sqr(),
+        Op::DivRemAssign(d, s) => {
+            let (x, y) = two(&mut p.i, d, s);
+            let r = dashu_base::DivRemAssign::div_rem_assign(x, y);
+            drop(r);
+        }
+        Op::GcdAssign(d, s) => {
+            let g = dashu_base::Gcd::gcd(&p.i[d as usize], &p.i[s as usize]);
+            p.i[d as usize] = IBig::from(g);
+        }
+        Op::Swap => p.i.swap(0, 1),
+        Op::MulPrim(d) => p.i[d as usize] *= 1000003u32,
+        Op::AddPrim(d) => p.i[d as usize] += u64::MAX,
+        Op::SubPrimI(d) => p.i[d as usize] -= i128::MIN + 1,
+        Op::FromU128(d) => p.i[d as usize] = IBig::from(U128_CONST),
+        Op::StrRoundTrip(d) => {
+            let t = p.i[d as usize].in_radix(16).to_string();
+            p.i[d as usize] = IBig::from_str_radix(&t, 16).unwrap();
+        }
+        Op::USqrt => p.u = dashu_base::SquareRoot::sqrt(&p.u),
+        Op::UPow3 => p.u = p.u.pow(3),
+        Op::UDivPrim => p.u /= 7u8,
+        Op::URemPrim => p.u = UBig::from(&p.u % U64_MOD),
+        Op::UPaddedWords => {
+            let mut w = p.u.as_words().to_vec();
+            w.push(0);
+            w.push(0);
+            p.u = UBig::from_words(&w);
+        }
+        Op::UChunks => {
+            if !p.u.is_zero() {
+                let c = p.u.to_chunks(100);
+                p.u = UBig::from_chunks(c.iter(), 100);
+            }
+        }
     }
 }
 
